@@ -138,6 +138,8 @@ def run(repo, rep):
     rep.clause("C18-j", "legality tests are membership tests in an explicit collection (not flag containment in a combined IntFlag value)")
     rep.clause("C18-k", "a bundled section whose name extends another section's name inherits from that section")
     rule_round7(repo, rep)
+    rep.clause("C18-l", "configuration files that cannot be parsed are rejected with a Vela error: the read is guarded, values are read without interpolation")
+    rule_parse_guarded(repo, rep)
 
 
 # ------------------------------------------------------------------ a
@@ -844,3 +846,53 @@ def rule_round7(repo, rep):
                       f"inherit chain {chain}: the documented '{name.split('.')[-1]}' mode resolves to the memory areas of another mode (arena in Sram, no dedicated cache limit)")
     if k_ < 1:
         raise AnalysisError("vela.ini: no section extends another section's name")
+
+
+def rule_parse_guarded(repo, rep):
+    """(l) a configuration file that ConfigParser cannot parse (duplicate section or option, text before the first header, a '%' in a
+    value) is reported as a Vela error: the `read` of the parser object sits in a `try` whose handler catches configparser's base error
+    (or wider) and raises a VelaError subclass, and values are read without interpolation (`interpolation=None`) or every `get` is
+    guarded the same way - an InterpolationSyntaxError is raised by `get`, not by `read`."""
+    af = repo.mod("architecture_features")
+    site = "ethosu/vela/architecture_features.py:ArchitectureFeatures._get_vela_config"
+    imports = {}
+    for st in af.tree.body:
+        if isinstance(st, ast.ImportFrom) and st.module == "configparser":
+            for a in st.names:
+                imports[a.asname or a.name] = a.name
+    makes = []
+    reads = []
+    for q, fn in af.functions.items():
+        for c in ast.walk(fn):
+            if isinstance(c, ast.Call) and (call_name(c) in ("ConfigParser", "configparser.ConfigParser") or imports.get(call_name(c) or "") == "ConfigParser"):
+                makes.append((q, fn, c))
+            if isinstance(c, ast.Call) and isinstance(c.func, ast.Attribute) and c.func.attr in ("read", "read_file", "read_string") and "vela_config" in str(norm(c.func.value)):
+                reads.append((q, fn, c))
+    if not makes or not reads:
+        raise AnalysisError("architecture_features: construction / read of the configuration parser not found")
+    for q, fn, c in makes:
+        kw = {k.arg: str(norm(k.value)) for k in c.keywords}
+        rep.check(kw.get("interpolation") == "None", "C18-l", f"ethosu/vela/architecture_features.py:{q}", "values are read without interpolation (interpolation=None)",
+                  f"`{str(norm(c))}`: with the default BasicInterpolation a '%' in a value makes `get` raise InterpolationSyntaxError: a traceback instead of `Error: ...` and status 1")
+    base = {"Error", "ConfigParserError", "Exception", "BaseException", "configparser.Error"} | {k for k, v in imports.items() if v == "Error"}
+    for q, fn, c in reads:
+        tr = None
+        cur = af.parents.get(c)
+        while cur is not None and cur is not fn:
+            if isinstance(cur, ast.Try) and any(c is x for st in cur.body for x in ast.walk(st)):
+                tr = cur
+                break
+            cur = af.parents.get(cur)
+        ok = False
+        if tr is not None:
+            for h in tr.handlers:
+                names = set()
+                if h.type is None:
+                    names.add("BaseException")
+                else:
+                    for x in ([h.type] if not isinstance(h.type, ast.Tuple) else h.type.elts):
+                        names.add(str(norm(x)))
+                if names & base and any(isinstance(x, ast.Raise) and x.exc is not None and isinstance(x.exc, ast.Call) and str(norm(x.exc.func)).endswith("Error") and str(norm(x.exc.func)) not in base for x in ast.walk(h)):
+                    ok = True
+        rep.check(ok, "C18-l", f"ethosu/vela/architecture_features.py:{q}", f"`{str(norm(c))[:60]}` is guarded: parser errors become a Vela error",
+                  "the parse is unguarded: a duplicate section / option or text before the first header escapes vela.main() as a configparser traceback (only VelaError is caught there)")
